@@ -7,11 +7,11 @@ from ..core import sig
 from ..engines.world import World
 from ..traps import Traps
 
-REACH = {"e2e_frames_parsed": {"quick": 20000, "thorough": 500000},
-         "version_scenarios": {"quick": 150, "thorough": 4000},
-         "discovery_failed_scenarios": {"quick": 40, "thorough": 1000},
-         "produce_requests_versioned": {"quick": 300, "thorough": 8000},
-         "fetch_requests_versioned": {"quick": 300, "thorough": 8000}}
+REACH = {"e2e_frames_parsed": {"quick": 20000, "thorough": 288000},
+         "version_scenarios": {"quick": 110, "thorough": 1584},
+         "discovery_failed_scenarios": {"quick": 33, "thorough": 475},
+         "produce_requests_versioned": {"quick": 300, "thorough": 4320},
+         "fetch_requests_versioned": {"quick": 300, "thorough": 4320}}
 
 IMPLEMENTED = {0: (0, 1, 2), 1: (0, 1, 2)}  # versions whose layout afkak can write and whose reply it can read
 
